@@ -74,13 +74,11 @@ def run(ctx):
 
     # ---- R2 count formatting ----------------------------------------------------------------------------
     sc = I.global_name("formulas", "_str_count") if ctx.src.has_func("formulas._str_count") else None
-    count_node = None
-    for n in peg.Grammar(gram, I).nodes():
-        if isinstance(n, peg.MatchFirst) and len(n.exprs) == 2 and all(isinstance(e, peg.Regex) for e in n.exprs):
-            count_node = n
+    from .C01 import count_token
+    count_node = count_token(peg.Grammar(gram, I).nodes())
     if count_node is None:
         raise AnalysisError("count token not found in the extracted grammar")
-    count_rx = "(" + ")|(".join(e.pattern for e in count_node.exprs) + ")"
+    count_rx = "(" + ")|(".join(e.pattern for e in count_node) + ")"
     mantissas = ["1", "2", "9", "1.5", "2.5", "1.25", "1.23456", "1.234567", "9.99999", "9.999995", "9.9999949", "1.000001", "1.0000005", "3.14159265"]
     bad_lang, bad_val, n_counts = [], [], 0
     H = E("H")
